@@ -195,7 +195,8 @@ def run(ctx: common.Ctx):
             ex = r.get("explore", {})
             from .c08 import exec_signature
             fails = [f for f in ex.get("failures", [])
-                     if not exec_signature(f["what"], r["patterns"]).endswith("output-name-equals-input-name")]
+                     if not exec_signature(f["what"], r["patterns"]).endswith(
+                         ("output-name-equals-input-name", "output-name-shadows-input"))]
             if fails:
                 n_through_bad += 1
                 f = fails[0]
